@@ -23,6 +23,17 @@
 //   sweepfp <T> <lo> <hi> <step>                 bit patterns lo, lo+step, .. < hi: text parses back bit-identically, glibc strtof/strtod
 //                                                reads the same value from it, no decimal that round-trips can be written with fewer characters: FPSWEEP <count> <bad> <first bad>
 // Answers: OK <v> | OOR | INV | OTHER ;  LOADED <t> | NOTLOADED <t> | EXC <code> <t> ;  H <hash> <count> <nontrivial>
+//
+// Build variants (to keep compile time down the checks build three binaries from this file, in parallel):
+//   -DNUM_PART_CONV   conv / policy* / sweepconv / sweeppol          (C04)
+//   -DNUM_PART_TEXT   num.* / bool.parse / std* / sweeptext / sweepstd / fp.rt / fp.parse   (C16)
+//   -DNUM_PART_FP     fp.rt / fp.parse / sweepfp only (built -O2 without sanitizers for the 2^32 float sweep)
+//   none of them      everything
+#if !defined(NUM_PART_CONV) && !defined(NUM_PART_TEXT) && !defined(NUM_PART_FP)
+#define NUM_PART_CONV
+#define NUM_PART_TEXT
+#define NUM_PART_FP
+#endif
 #include "common.h"
 #include "bitserializer/bit_serializer.h"
 #include "bitserializer/convert.h"
@@ -277,7 +288,9 @@ int main() {
 		std::string ans = "UNSUPPORTED";
 		try {
 			const std::string& op = t.at(0);
-			if (op == "conv") {
+			if (false) {}
+#ifdef NUM_PART_CONV
+			else if (op == "conv") {
 				with_type(t.at(1), [&](auto s) { using S = typename decltype(s)::type;
 					with_type(t.at(2), [&](auto d) { using T = typename decltype(d)::type;
 						ans = op_conv<S, T>(value_of<S>(t.at(3))); }); });
@@ -297,6 +310,8 @@ int main() {
 						auto s = to_str<C>(vh::parse_list(t.at(3)));
 						ans = op_policy<std::basic_string_view<C>, T>(std::basic_string_view<C>(s), value_of<T>(t.at(4)), ovf_of(t.at(5)), mism_of(t.at(6))); }); });
 			}
+#endif
+#ifdef NUM_PART_TEXT
 			else if (op == "num.tostr") {
 				with_int_type(t.at(1), [&](auto d) { using T = typename decltype(d)::type;
 					with_width(t.at(2), [&](auto c) { using C = typename decltype(c)::type;
@@ -311,6 +326,8 @@ int main() {
 				with_width(t.at(1), [&](auto c) { using C = typename decltype(c)::type;
 					ans = op_parse<bool, C>(to_str<C>(vh::parse_list(t.at(2)))); });
 			}
+#endif
+#if defined(NUM_PART_TEXT) || defined(NUM_PART_FP)
 			else if (op == "fp.rt" || op == "fp.parse") {
 				auto run = [&](auto d) { using T = typename decltype(d)::type;
 					with_width(t.at(2), [&](auto c) { using C = typename decltype(c)::type;
@@ -321,6 +338,8 @@ int main() {
 						if (ans.rfind("OK ", 0) == 0) ans += " " + op_parse<T, C>(txt); }); };
 				if (t.at(1) == "f32") run(Tag<float>{}); else if (t.at(1) == "f64") run(Tag<double>{});
 			}
+#endif
+#ifdef NUM_PART_FP
 			else if (op == "sweepfp") {
 				U lo = std::strtoull(t.at(2).c_str(), nullptr, 16), hi = std::strtoull(t.at(3).c_str(), nullptr, 16), step = std::strtoull(t.at(4).c_str(), nullptr, 16);
 				U count = 0, bad = 0; std::string first = "-";
@@ -334,6 +353,8 @@ int main() {
 				if (t.at(1) == "f32") run(Tag<float>{}); else if (t.at(1) == "f64") run(Tag<double>{});
 				ans = "FPSWEEP " + std::to_string(count) + " " + std::to_string(bad) + " " + first;
 			}
+#endif
+#ifdef NUM_PART_TEXT
 			else if (op == "stdfc") {
 				with_int_type(t.at(1), [&](auto d) { using T = typename decltype(d)::type;
 					ans = op_stdfc<T>(to_str<char>(vh::parse_list(t.at(2)))); });
@@ -342,6 +363,8 @@ int main() {
 				with_int_type(t.at(1), [&](auto d) { using T = typename decltype(d)::type;
 					ans = op_stdtc<T>(std::stoul(t.at(2)), value_of<T>(t.at(3))); });
 			}
+#endif
+#ifdef NUM_PART_CONV
 			else if (op == "sweepconv" || op == "sweeppol") {
 				U lo = std::strtoull(t.at(2).c_str(), nullptr, 16), hi = std::strtoull(t.at(3).c_str(), nullptr, 16);
 				vh::Hash h; g_nontrivial = 0; bool ok = false;
@@ -356,6 +379,8 @@ int main() {
 					} });
 				if (ok) ans = "H " + std::to_string(h.h) + " " + std::to_string(h.n) + " " + std::to_string(g_nontrivial);
 			}
+#endif
+#ifdef NUM_PART_TEXT
 			else if (op == "sweeptext") {
 				U lo = std::strtoull(t.at(3).c_str(), nullptr, 16), hi = std::strtoull(t.at(4).c_str(), nullptr, 16);
 				vh::Hash h; g_nontrivial = 0; bool ok = false;
@@ -389,6 +414,7 @@ int main() {
 					} });
 				if (ok) ans = "H " + std::to_string(h.h) + " " + std::to_string(h.n) + " " + std::to_string(g_nontrivial);
 			}
+#endif
 		}
 		catch (const BadCase& e) { ans = std::string("BADCASE ") + e.what(); }
 		catch (const std::exception& e) { ans = std::string("DRIVEREXC ") + e.what(); }
